@@ -1,6 +1,7 @@
 SPECIFICATION Spec
 CONSTANTS NE = 3
  WithProbes = FALSE
+ WithSrc = TRUE
  Hand = 0
 INVARIANT TypeOK
 INVARIANT DeclImpliesBehavioural
